@@ -43,7 +43,13 @@ func TestC06NodeIncoming(t *testing.T) {
 		switch epKind {
 		case "serial":
 			dev := fmt.Sprintf("/dev/ttyC06_%d", atomic.AddInt64(&serialCounter, 1))
-			serialDevices.Store(dev, func() (io.ReadWriteCloser, error) { return p, nil })
+			opens := int64(0)
+			serialDevices.Store(dev, func() (io.ReadWriteCloser, error) {
+				if atomic.AddInt64(&opens, 1) == 1 {
+					return sim.NewPipe(), nil // the endpoint opens the device once to see that it exists, and closes it
+				}
+				return p, nil
+			})
 			defer serialDevices.Delete(dev)
 			ep = gomavlib.EndpointSerial{Device: dev, Baud: 57600}
 		case "tcp-server":
